@@ -22,22 +22,24 @@ func (n *NoWhitespaceComment) Fix(fc *FixCandidate, opts *RuntimeOptions) ([]Fix
 
 	for _, loc := range opts.Locations {
 		// unexpected line in file, skipping
-		if loc.Row > len(lines) {
-			continue
-		}
-
-		if loc.Column > len(lines[loc.Row-1]) || loc.Column < 1 {
+		if loc.Row < 1 || loc.Row > len(lines) {
 			continue
 		}
 
 		line := lines[loc.Row-1]
 
-		// unexpected character at location column, skipping
-		if line[loc.Column-1] != byte('#') {
+		// columns are counted in characters, not bytes
+		idx, ok := byteIndexOfColumn(line, loc.Column)
+		if !ok {
 			continue
 		}
 
-		lines[loc.Row-1] = line[0:loc.Column] + " " + line[loc.Column:]
+		// unexpected character at location column, skipping
+		if line[idx] != '#' {
+			continue
+		}
+
+		lines[loc.Row-1] = line[0:idx+1] + " " + line[idx+1:]
 		fixed = true
 	}
 
